@@ -18,7 +18,10 @@ CHUNK = 300
 ELEMS = [("0", "0", 0), ("1", "1", 1), ("127", "127", 127), ("128", "128", 128), ("255", "255", 255), ("256", "256", 256),
          ("65535", "65535", 65535), ("-1", "-1", -1), ("-128", "-128", -128), ("-129", "-129", -129), ("-32768", "-32768", -32768),
          ("$7F", "$7F", 0x7F), ("$0A", "$0A", 10), ("$1234", "$1234", 0x1234), ("%bin8", "%10000001", 0x81), ("'A", "'A", 65),
-         ("equ", "EQ5", 5), ("label", "LB", 0x3000)]
+         ("equ", "EQ5", 5), ("label", "LB", 0x3000),
+         # (from here on: elements used in the explicit lists below only, not in the products)
+         ("'a", "'a", 97), ("'z", "'z", 122), ("'!", "'!", 33)]
+NPROD = 18
 DELIMS = [chr(c) for c in range(33, 127)]          # every printable non-blank character may delimit a string
 STR_ALPHA = ["A", " ", ";", ",", '"', "/", "#", "z", "0", "'"]
 
@@ -31,16 +34,19 @@ def cases(tier, seed):
     thorough = tier == "thorough"
     for d in ("FCB", "FDB"):
         for n in (1, 2, 3):
-            for combo in itertools.product(range(len(ELEMS)), repeat=n):
+            for combo in itertools.product(range(NPROD), repeat=n):
                 if n == 3 and not thorough and len(set(combo)) > 2 and (combo[0] + combo[1] * 3 + combo[2] * 7) % 4:
                     continue
                 yield {"d": d, "elems": list(combo)}
+        # character constants of lower-case letters and punctuation, alone and inside lists (a list is read by its own code)
+        for combo in ([18], [18, 0], [0, 18], [18, 19, 20, 4], [15, 18], [19, 19], [20, 18, 15, 1, 19]):
+            yield {"d": d, "elems": combo}
         for n in range(4, 65):
-            for k in range(len(ELEMS)):
+            for k in range(NPROD):
                 yield {"d": d, "elems": [k] * n}
                 for pos in (0, n // 2, n - 1):
                     e = [k] * n
-                    e[pos] = (k + 5) % len(ELEMS)
+                    e[pos] = (k + 5) % NPROD
                     yield {"d": d, "elems": e}
     # FCC
     maxlen = 4 if thorough else 3
